@@ -500,6 +500,8 @@ def mk_case(family, tag, files, argv, links=None, cwd=CWD):
 
 T0 = {
     "a.lua": None, "c.txt": None, "x.spec.lua": None, ".h.lua": None, "notes.md": None, "data.json": None,
+    # the default globs are written in lower case and match the case of the name
+    "UPPER.LUA": None, "sub/Mixed.Lua": None, "sub/deep/Types.Luau": None,
     ".hid/k.lua": None,
     "sub/s.lua": None, "sub/t.lua": None, "sub/.w.lua": None, "sub/u.txt": None,
     "sub/deep/d.lua": None, "sub/deep/e.luau": None, "sub/deep/f.spec.lua": None,
@@ -513,7 +515,7 @@ T0 = {
 ARG_LISTS = [
     ["."], ["sub"], ["sub/"], ["sub/deep"], ["vendor"], [".hid"], ["gen"], ["gen/out"],
     ["a.lua"], ["c.txt"], ["x.spec.lua"], [".h.lua"], ["sub/s.lua"], ["sub/deep/e.luau"], ["vendor/v.lua"], ["gen/g.lua"],
-    ["gen/out/o.lua"], ["data.json"],
+    ["gen/out/o.lua"], ["data.json"], ["UPPER.LUA"], ["sub/Mixed.Lua", "sub"],
     ["sub", "sub/t.lua"], ["a.lua", "a.lua"], ["sub", "sub"], ["./sub", "./sub/t.lua"], [".", "./a.lua"], ["sub/deep", "sub"],
     ["a.lua", "sub", "vendor/v.lua", "c.txt"], [ABS], [ABS + "/sub", ABS + "/sub/s.lua"],
 ]
